@@ -67,9 +67,100 @@ func c16Root(e ast.Expr) string {
 	}
 }
 
+// c16KeyFacts: do the closures the key wrappers install pass the variadic option list on to
+// the closures they wrap?  For W = inputKeyedComposableRunnable / outputKeyedComposableRunnable
+// and f = i / t: W binds a local L by `L := <param>.f`, assigns `wrapper.f = func(..., P ...any)
+// {...}` and the literal's body calls L exactly once.  true: that call ends in `P...`;
+// false: it does not; any other shape (function / assignment missing, L never or several times
+// called, L called through another name): unknown.
+func c16KeyFacts(cp *Pkg) []Fact {
+	var out []Fact
+	for _, w := range []struct{ fn, pre string }{{"inputKeyedComposableRunnable", "inKeyFwd"}, {"outputKeyedComposableRunnable", "outKeyFwd"}} {
+		fd, file := cp.Func("", w.fn)
+		for _, f := range []struct{ field, suffix string }{{"i", "Invoke"}, {"t", "Transform"}} {
+			name := w.pre + f.suffix
+			if fd == nil || fd.Body == nil {
+				out = append(out, unknownFact(name, "Bool", "false", "compose/runnable.go", "func "+w.fn+" not found"))
+				continue
+			}
+			where := "compose/" + file + ": func " + w.fn + ": closure wrapper." + f.field
+			// locals bound to <x>.<field>
+			locals := map[string]bool{}
+			var lit *ast.FuncLit
+			nLit := 0
+			ast.Inspect(fd.Body, func(n ast.Node) bool {
+				as, ok := n.(*ast.AssignStmt)
+				if !ok || len(as.Lhs) != 1 || len(as.Rhs) != 1 {
+					return true
+				}
+				if id, ok := as.Lhs[0].(*ast.Ident); ok && as.Tok == token.DEFINE {
+					if se, ok := as.Rhs[0].(*ast.SelectorExpr); ok && se.Sel.Name == f.field {
+						if _, ok := se.X.(*ast.Ident); ok {
+							locals[id.Name] = true
+						}
+					}
+				}
+				if se, ok := as.Lhs[0].(*ast.SelectorExpr); ok && se.Sel.Name == f.field && as.Tok == token.ASSIGN {
+					if fl, ok := as.Rhs[0].(*ast.FuncLit); ok {
+						lit = fl
+						nLit++
+					}
+				}
+				return true
+			})
+			if lit == nil || nLit != 1 || len(locals) == 0 {
+				out = append(out, unknownFact(name, "Bool", "false", where, "no single `wrapper."+f.field+" = func(...)` over a local bound to the wrapped closure"))
+				continue
+			}
+			variadic := ""
+			if ps := lit.Type.Params.List; len(ps) > 0 {
+				last := ps[len(ps)-1]
+				if _, ok := last.Type.(*ast.Ellipsis); ok && len(last.Names) == 1 {
+					variadic = last.Names[0].Name
+				}
+			}
+			calls, fwd := 0, 0
+			ast.Inspect(lit.Body, func(n ast.Node) bool {
+				ce, ok := n.(*ast.CallExpr)
+				if !ok {
+					return true
+				}
+				callee := false
+				switch fn := ce.Fun.(type) {
+				case *ast.Ident:
+					callee = locals[fn.Name]
+				case *ast.SelectorExpr:
+					_, isID := fn.X.(*ast.Ident)
+					callee = isID && fn.Sel.Name == f.field
+				}
+				if !callee {
+					return true
+				}
+				calls++
+				if variadic != "" && ce.Ellipsis.IsValid() && len(ce.Args) > 0 {
+					if id, ok := ce.Args[len(ce.Args)-1].(*ast.Ident); ok && id.Name == variadic {
+						fwd++
+					}
+				}
+				return true
+			})
+			switch {
+			case calls == 1 && fwd == 1:
+				out = append(out, boolFact(name, true, where+" calls the wrapped closure with `"+variadic+"...`"))
+			case calls == 1 && fwd == 0:
+				out = append(out, boolFact(name, false, where+" calls the wrapped closure without the option list"))
+			default:
+				out = append(out, unknownFact(name, "Bool", "false", where, "the wrapped closure is not called exactly once in the literal"))
+			}
+		}
+	}
+	return out
+}
+
 func factsC16(r *Repo) []Fact {
 	cp := r.Pkg("compose")
 	var out []Fact
+	out = append(out, c16KeyFacts(cp)...)
 	shape := map[string]bool{}
 	shapeOrder := []string{}
 	setShape := func(name string, v bool) {
